@@ -18,7 +18,8 @@ CASE_TIMEOUT = 1200
 RULE = ("cases = crystal zoo x supercell matrix (diagonal, non-diagonal, centring type) x primitive matrix (none|centring|auto) "
         "x is_plusminus(auto|True|False) x is_diagonal x distance x full/compact x is_symmetry x model(pair|projected); "
         "non-trivial = model has max|Phi|>0 and at least one non-zero block between different atoms; "
-        "distinct = (crystal, atom order, supercell matrix, primitive matrix, option tuple, model)")
+        "distinct = (crystal, atom order, supercell matrix, primitive matrix, option tuple, model); "
+        "additions of rounds 6-8: forces handed over in several memory layouts; a second structure solved in the same process; thread counts 1-16; kind directions: for supercell matrices with entries up to 3 the displaced atoms cover all atoms and each atom's displacements with their site-symmetry images span 3 dimensions (own spglib call, rank test)")
 ASSUMPTIONS = [
     "extension built from the working tree through the nanobind shim (argument conversion only)",
     "spglib operations of the supercell are used to build the projected model (brute-force atom matching by the harness)",
